@@ -9,6 +9,7 @@ from adcgen import Expr
 from adcgen.indices import (Indices, Index, get_symbols, order_substitutions,
                             get_lowest_avail_indices)
 from adcgen.misc import Singleton
+from adcgen.sympy_objects import KroneckerDelta
 
 from ..gen import (Cfg, st_expr_case, build_term, sym, syms, label_class,
                    parse_label, BadCase, sort_labels, rebuild, label_of,
@@ -86,9 +87,16 @@ def st_map_case(draw):
     if shape == "free" or draw(st.booleans()):
         for _ in range(draw(st.integers(1, 4))):
             mp[draw(st.sampled_from(pool))] = draw(st.sampled_from(pool))
+    # callers only ever map an index onto one of the same space and spin or
+    # onto a more specific one (general -> occ/virt, no spin -> alpha/beta)
+    def admissible(k, v):
+        (sk, pk), (sv, pv) = label_class(k), label_class(v)
+        return (sk == sv or sk == "general") and (pk == pv or pk == "")
     same_class = draw(st.booleans())
     if same_class:
         mp = {k: v for k, v in mp.items() if label_class(k) == label_class(v)}
+    else:
+        mp = {k: v for k, v in mp.items() if admissible(k, v)}
     order = list(draw(st.permutations(sorted(mp))))
     return {"sub": "map", "terms": base["terms"], "map": [[k, mp[k]] for k in order],
             "spin": base["spin"], "mseed": draw(st.integers(0, 2**31))}
@@ -127,6 +135,24 @@ def run_map(case, r):
         return
     exp = rebuild(raw, mp)
     if got != exp:
+        # term by term: a cross-space substitution that turns a delta into 0
+        # on the way cannot be undone by a later substitution (the objects
+        # evaluate eagerly); same observation as for permute, see DESIGN.md
+        cross = any(a.space != b.space and "general" not in (a.space, b.space)
+                    for a, b in mp.items())
+        bad = False
+        for t in Add.make_args(raw):
+            g_t = Expr(t).subs(sub).sympy
+            e_t = rebuild(t, mp)
+            if g_t == e_t:
+                continue
+            if g_t == 0 and cross and t.atoms(KroneckerDelta):
+                r.excluded.append("cross_space_map_through_zero_delta")
+                continue
+            bad = True
+        if not bad:
+            got = exp
+    if got != exp:
         r.fail("ordered_vs_simultaneous",
                f"{raw} with {mp}: ordered list {sub} gives {got}, "
                f"simultaneous substitution gives {exp}")
@@ -153,7 +179,7 @@ def st_perm_case(draw):
     for _ in range(n):
         p = draw(st.sampled_from(labels))
         cands = [l for l in labels if l != p and
-                 (label_class(l) == label_class(p) or draw(st.integers(0, 4)) == 0)]
+                 label_class(l) == label_class(p)]
         if not cands:
             continue
         perms.append([p, draw(st.sampled_from(cands))])
